@@ -361,6 +361,12 @@ func TestVerifReplay(t *testing.T) {
 			o := make([]byte, 32); encryptX2(&c2, o, c.in[:32]); if !bytes.Equal(o, c.want[:32]) { t.Fatalf("portable X2") }
 		}
 	}
+	// key lengths: only 16 bytes is a key; everything else must give an error and no cipher
+	for n := 0; n <= 64; n++ {
+		c, err := NewCipher(make([]byte, n))
+		if n == 16 && (err != nil || c == nil) { t.Fatalf("16-byte key refused") }
+		if n != 16 && (err == nil || c != nil) { t.Fatalf("NewCipher accepts a %%d-byte key", n) }
+	}
 }''' % rows
     ok, out, path = ck.go_test('sm4', src, name='blocks')
     if ok is True:
